@@ -501,7 +501,9 @@ pub fn gen_rlib(rng: &mut Rng, cyclic: bool) -> String {
             let insts: Vec<String> = tbl[i].iter().enumerate().map(|(k, d)| format!("(i {} {} {} {} {} {})", of_bytes(format!("i{}", k).as_bytes()), of_bytes(format!("c{}", d).as_bytes()), rng.range(-100, 100), rng.range(-100, 100), if rng.coin() { "#t" } else { "#f" }, match rng.below(5) { 0 => "#f".to_string(), 1 => "0".to_string(), q => (90 * (q as i64 - 1)).to_string() })).collect();
             let elems: Vec<String> = (0..rng.below(7)).map(|_| format!("(e {} {} {} {})", if rng.coin() { "#f".to_string() } else { of_bytes(format!("net{}", rng.below(3)).as_bytes()).to_string() }, rng.pick(&layers), rng.below(3), gen_shape(rng))).collect();
             let ann: Vec<String> = (0..rng.below(3)).map(|k| format!("(a {} {} {})", of_bytes(format!("t{}", k).as_bytes()), rng.range(-9, 9), rng.range(-9, 9))).collect();
-            format!("(layout {} (insts {}) (elems {}) (annots {}))", of_bytes(format!("c{}", i).as_bytes()), insts.join(" "), elems.join(" "), ann.join(" ")).replace(" )", ")")
+            // a quarter of the layout views carry a name of their own (the schema has a name on the cell AND on each view)
+            let lname = if (i * 7 + n) % 4 == 1 { format!("c{}_layout_v2", i) } else { format!("c{}", i) };
+            format!("(layout {} (insts {}) (elems {}) (annots {}))", of_bytes(lname.as_bytes()), insts.join(" "), elems.join(" "), ann.join(" ")).replace(" )", ")")
         } else { "#f".to_string() };
         let abs = if !has_layout || rng.chance(1, 3) {
             let mut used: Vec<i64> = vec![];
@@ -509,7 +511,8 @@ pub fn gen_rlib(rng: &mut Rng, cyclic: bool) -> String {
             let ports: Vec<String> = (0..rng.below(4)).map(|k| { let mut u = vec![]; let mut ms: Vec<(i64, String)> = (0..1 + rng.below(3)).map(|_| lm(rng, &mut u)).filter(|s| !s.is_empty()).map(|s| (s[1..].split(' ').next().unwrap().parse().unwrap(), s)).collect(); ms.sort(); format!("(port {} {})", of_bytes(format!("p{}", k).as_bytes()), ms.into_iter().map(|x| x.1).collect::<Vec<_>>().join(" ")) }).collect();
             let mut bl: Vec<(i64, String)> = (0..rng.below(4)).map(|_| lm(rng, &mut used)).filter(|s| !s.is_empty()).map(|s| (s[1..].split(' ').next().unwrap().parse().unwrap(), s)).collect();
             bl.sort();
-            format!("(abs {} (outline (0 0) (10 0) (10 10) (0 10)) (ports {}) (blockages {}))", of_bytes(format!("c{}", i).as_bytes()), ports.join(" "), bl.into_iter().map(|x| x.1).collect::<Vec<_>>().join(" ")).replace(" )", ")")
+            let aname = if (i * 5 + n) % 4 == 2 { format!("c{}_abstract", i) } else { format!("c{}", i) };
+            format!("(abs {} (outline (0 0) (10 0) (10 10) (0 10)) (ports {}) (blockages {}))", of_bytes(aname.as_bytes()), ports.join(" "), bl.into_iter().map(|x| x.1).collect::<Vec<_>>().join(" ")).replace(" )", ")")
         } else { "#f".to_string() };
         cells.push(format!("(cell {} {} {})", of_bytes(format!("c{}", i).as_bytes()), layout, abs));
     }
